@@ -236,6 +236,7 @@ package vuego
 //@   ensures C12.complete: err == nil ==> failed(w) == old(failed(w))
 
 //@ func (v *Vue) RenderNodes(w, nodes, data) (err)
+//@   assert C09+C10.root.private: fresh($arg0) at "call NewStackWithData"
 //@   ensures C12.nothing: err != nil && !failed(w) ==> out(w) == old(out(w))
 //@   ensures C12.reported: failed(w) && !old(failed(w)) ==> err != nil
 //@   ensures C12.complete: err == nil ==> failed(w) == old(failed(w))
